@@ -414,7 +414,10 @@ def minimise(rec, fp):
         raise HarnessError("violation does not reproduce before minimisation")
     changed = True
     rounds = 0
-    while changed and rounds < 200:
+    import time
+
+    t_end = time.time() + float(os.environ.get("VERIF_MIN_BUDGET_S", "90"))
+    while changed and rounds < 200 and time.time() < t_end:
         changed = False
         rounds += 1
         cands = []
@@ -461,6 +464,8 @@ def minimise(rec, fp):
             c["config"]["p_mid"] = 0.0
             cands.append(c)
         for c in cands:
+            if time.time() > t_end:
+                break
             got = _try(c, fp)
             if got is not None:
                 cur = got
